@@ -4,7 +4,9 @@
 // Every TLC-generated case is a state (entries, version), a key set, the specification's proof
 // (ProofNodes) and adversarial supplies (honest proof, honest + foreign state's blobs, foreign blobs
 // + root node, honest proof minus one blob) each with the verdict of VerifySpec for every
-// (key, value) query.  The harness
+// (key, value) query; when the state stores values by hash, two more supplies carry the 32-byte DIGESTS of
+// those values as proof items of their own, and every (key, digest of its value) pair is queried as well
+// (the state holds the value, not its digest: reject).  The harness
 //   1. persists the state with the real trie (WriteDirty to a pebble table), calls Generate(root, keys, db),
 //      requires the generated set to contain ProofNodes and Verify to confirm every present (k, m[k]),
 //   2. calls Verify(supply, root, k, v) for every supply and query: an acceptance of a pair that does not
@@ -33,6 +35,7 @@ type vtpQuery struct {
 }
 
 type vtpSupply struct {
+	Name    string     `json:"name"`
 	Nodes   []VB       `json:"nodes"`
 	Queries []vtpQuery `json:"queries"`
 }
@@ -54,6 +57,17 @@ func vtpValueClass(m map[string][]byte, v1 bool, k, v []byte) string {
 	case present && v1 && len(mv) > 32:
 		if len(v) == 0 {
 			return "present-hashed-value/query-empty-value"
+		}
+		if bytes.Equal(v, vBlake(mv)) {
+			// the 32-byte digest of the stored value offered as if it were the value
+			// the node holding the value is a branch when another key extends k (the in-memory Get reads
+			// leaf and branch values through different code)
+			for o := range m {
+				if len(o) > len(k) && o[:len(k)] == string(k) {
+					return "present-hashed-value/query-value-digest/branch-node"
+				}
+			}
+			return "present-hashed-value/query-value-digest/leaf-node"
 		}
 		return "present-hashed-value"
 	case present && len(mv) == 0:
@@ -198,9 +212,12 @@ func TestVerifTrieProof(t *testing.T) {
 
 			// ---- 2. supplies from the model
 			for i, sup := range c.Supplies {
-				name := "honest-minus-one-blob"
-				if i < len(supplyNames) {
-					name = supplyNames[i]
+				name := sup.Name
+				if name == "" { // behaviours generated before supplies were named
+					name = "honest-minus-one-blob"
+					if i < len(supplyNames) {
+						name = supplyNames[i]
+					}
 				}
 				var nodes [][]byte
 				for _, n := range sup.Nodes {
